@@ -19,6 +19,7 @@ import (
 	"sort"
 	"strings"
 	"sync"
+	"sync/atomic"
 	"time"
 
 	"github.com/mdlayher/corerad/internal/config"
@@ -179,6 +180,18 @@ func (w *mWiring) memorySeries() (series map[string]metricslite.Series, panicked
 	return s, nil
 }
 
+var mReqs atomic.Int64
+
+var mClientHeaders = [][]string{
+	nil,
+	{"If-None-Match", "*"},
+	nil,
+	{"Range", "bytes=0-9"},
+	{"If-Modified-Since", "Fri, 01 Jan 2100 00:00:00 GMT"},
+	{"If-Modified-Since", "Fri, 01 Jan 2100 00:00:00 GMT", "If-None-Match", `"x"`, "Cache-Control", "max-age=0"},
+	{"If-Range", "Fri, 01 Jan 2100 00:00:00 GMT", "Range", "bytes=5-"},
+}
+
 // get issues one request against the debug handler; a panic inside the handler is returned.
 func (w *mWiring) get(path string) (status int, body []byte, panicked any) {
 	defer func() {
@@ -187,7 +200,14 @@ func (w *mWiring) get(path string) (status int, body []byte, panicked any) {
 		}
 	}()
 	rec := httptest.NewRecorder()
-	w.h.ServeHTTP(rec, httptest.NewRequest(http.MethodGet, path, nil))
+	req := httptest.NewRequest(http.MethodGet, path, nil)
+	// requests come from browsers reloading, curl -z, caching proxies in front of the debug port: what is reported
+	// is the state of that moment whatever validators or ranges the client sends along
+	hs := mClientHeaders[int(mReqs.Add(1))%len(mClientHeaders)]
+	for i := 0; i+1 < len(hs); i += 2 {
+		req.Header.Set(hs[i], hs[i+1])
+	}
+	w.h.ServeHTTP(rec, req)
 	res := rec.Result()
 	b, _ := io.ReadAll(res.Body)
 	return res.StatusCode, b, nil
